@@ -42,13 +42,17 @@ def parseIdent (s : String) : Option Ident.Ident :=
 def parseIdents (s : String) : Option (List Ident.Ident) :=
   if s == "" then some [] else (s.splitOn "+").mapM parseIdent
 
-def parseIdDef (s : String) : Option Ident.IdDef :=
+/-- `<mod>.<name>[!][<<base>+<base>]`; `!` after the name: the identity is disabled by `if-feature` -/
+def parseIdDef (s : String) : Option (Ident.IdDef × Bool) :=
   match s.splitOn "<" with
-  | [i] => (parseIdent i).map fun x => ⟨x, []⟩
+  | [i] =>
+    let dis := i.endsWith "!"
+    (parseIdent (if dis then (i.dropEnd 1).toString else i)).map fun x => (⟨x, []⟩, dis)
   | [i, bs] => do
-    let x ← parseIdent i
+    let dis := i.endsWith "!"
+    let x ← parseIdent (if dis then (i.dropEnd 1).toString else i)
     let b ← parseIdents bs
-    pure ⟨x, b⟩
+    pure (⟨x, b⟩, dis)
   | _ => none
 
 structure IdTy where
@@ -63,7 +67,8 @@ def parseIdTy (d : String) : Option IdTy :=
     | ["idref", lm, bs] => do
       let b ← parseIdents bs
       let defs ← (graph.splitOn ",").mapM parseIdDef
-      pure { leafmod := bytesOf lm, bases := b, ctx := ⟨defs⟩ }
+      pure { leafmod := bytesOf lm, bases := b,
+             ctx := { defs := defs.map (·.1), disabled := (defs.filter (·.2)).map (·.1.id) } }
     | _ => none
   | _ => none
 
